@@ -49,6 +49,15 @@ CHECKS = {
           "error conditions. Compression functions and the Poly1305 limb code are tied to the executable specifications by correspondence on every length 0..1100, adversarial Poly1305 accumulators, all "
           "BLAKE2b key/output lengths, on every backend reachable by CPU masks and build variants (ref/SSSE3/SSE4.1/AVX2, donna64/donna32/SSE2)."),
     note=NOTE_COMMON + "compression/round functions and limb arithmetic are parameters of the theorems (translation-validated, not proved)."),
+ "C09": dict(
+    category="proof", design_ref="DESIGN.md §3.9",
+    technique="Lean 4 theorems (one-step push/pull synchronisation, induction over histories of pushes and rekeys, injectivity of the MAC-input encoding, counter/rekey arithmetic) + stateful differential correspondence over random histories with forged pulls",
+    text=("push/pull/rekey/init are modelled exactly as written (counter ‖ inonce nonce, block 0 Poly key, block 1 tag block, blocks 2.. message, the mis-padded MAC input, inonce ^= mac, increment, "
+          "rekey on REKEY tag or counter wrap) with ChaCha20-IETF, Poly1305 and HChaCha20 as parameters. Lean proves for every state, message, ad, tag and every history of pushes and explicit rekeys "
+          "that the receiver recovers the pushed messages and tags in order and ends in the sender's state (including counter ff ff ff ff), that short inputs are rejected, that a rejected pull "
+          "has no state effect, that acceptance implies a valid MAC under the current chained state over an injective encoding of (ad, chunk). The model is tied to the code by random histories "
+          "(push, rekey, genuine and forged pulls: replayed, skipped, swapped, truncated, bit-flipped, wrong-ad, foreign), comparing outputs and the full 44-byte state after every operation."),
+    note=NOTE_COMMON + "'any deviation is rejected' beyond the MAC statement is MAC unforgeability (cryptographic), exercised by forged pulls only."),
 }
 
 NOT_YET = {}
